@@ -40,6 +40,11 @@ CHECKS = {
    text="TLC enumerates 25 object kinds x every applicable derivation (copy, * M, abs, Path(x), ~, @, +) x every history of <= MaxMut public mutations applied to either side; the spec's version counters say which side may change. The harness replays each history and compares deep snapshots of the untouched side after every step; for the empty history it computes the set of mutable objects reachable from both source and result and confirms each by writing it through the result.",
    note="Trusted: TLC, Alias.tla's applicability tables, the snapshot/reachability walker (~80 lines; caches _length/_lengths/n excluded). The mutation alphabet is finite (listed in Alias.tla); sharing outside it is still caught by the heap check when a witness mutation exists. Image has no pixel payload (PIL absent).",
    design="5/C18"),
+ "C12": dict(
+   technique="TLA+ CssLength over exact rationals; TLC enumerates every (amount, unit) x context cell and every ordered pair of lengths with all binary operations evaluated in two resolving contexts; each cell replayed into Length",
+   text="Exhaustive over the 14 units x amount table x 480 contexts for value()/to_mm/to_cm/to_inch (resolved value or 'stays symbolic') and over all ordered unit pairs for + - += / < <= > >= == != ; expected values come from the CSS ratios written once in TLA+ (Cycle, ContextFree, Reflexive are invariants of the spec). A result returned for an incommensurable pair must be correct in both contexts, so guessing is detected while ValueError/symbolic results are accepted.",
+   note="Trusted: TLC, Rat.tla, CssLength.tla, amount spelling code; tolerance 1e-9 relative. Known findings: the 6-digit mm/cm constants (pinned by test_length.py) and the ties they break.",
+   design="5/C12"),
 }
 NOT_BUILT = "check not built yet (planned: DESIGN.md section 5)"
 
